@@ -40,7 +40,9 @@ EnumNames   == {"@e", "@f"}
 TagNames    == {"@g", "@h"}
 ServerNames == {"@s", "@t"}
 Verbs       == IF Rich THEN {"GET", "POST", "PUT", "PATCH", "DELETE"} ELSE {"GET", "POST"}
-Annots      == {"", "note one", "collapsed text"}    \* the last one is written with runs of blanks and a tab
+Annots      == {"", "note one", "collapsed text", "wide spaces"}
+               \* "collapsed text" is written with runs of blanks and a tab; "wide spaces" stands for a text with no-break,
+               \* ideographic and em spaces and a vertical tab (run/apidoc.py WIDE_TEXT): characters, not blanks
 Descs       == {"", "some text"}
 Codes       == IF Rich THEN {"200", "201", "404", "409", "500", "599"} ELSE {"200", "404"}
 
